@@ -77,6 +77,8 @@ def run(ctx):
                 opts = {"max_units": 8, "min_units": 4, "max_dies": 25}
             if k % 2:
                 opts["cu_imports"] = 0.4          # DW_AT_import of a normal compilation unit
+            if k % 3 == 1:
+                opts["type_units"] = 0.4
             desc, path = fs.make(rng, **opts)
             i, ne, sh = import_stats(desc)
             stats["imports"] += i
